@@ -40,8 +40,8 @@ GEN_Q = [
 GEN_T = [
     ("GenTagRulesMix.cfg", "TagsFilter, one rule of each kind: <=3 rules x 1 tag of 10, <=2 x <=2 of 4, <=1 x <=3 of 6", True, False),
     ("GenTagRulesTinyT.cfg", "complete product: rule lists <= 3 x tag lists <= 3, four families, 2 templates each, 4 tags", True, False),
-    ("GenTagRulesLegacyT.cfg", "legacy filters, 3-5 templates: <=3 rules x 1 tag of 49, <=2 x <=2 of 6, <=1 x <=3 of 6, <=3 x <=2 of 4", True, False),
-    ("GenTagRulesEqT.cfg", "TagsFilter, 7 equal/true/false templates: <=3 rules x 1 tag of 15, <=2 x <=2 of 6, <=1 x <=3 of 6, <=3 x <=2 of 4", True, False),
+    ("GenTagRulesLegacyT.cfg", "legacy filters, 3-5 templates: <=3 rules x 1 tag of 15, <=2 x <=2 of 6, <=1 x <=3 of 6", True, False),
+    ("GenTagRulesEqT.cfg", "TagsFilter, 7 equal/true/false templates: <=3 rules x 1 tag of 15, <=2 x <=2 of 6, <=1 x <=3 of 6", True, False),
     ("GenTagRulesPreT.cfg", "TagsFilter, 7 prefix/substring templates: shapes as above", True, False),
     ("GenTagRulesListT.cfg", "TagsFilter, 6 list templates: shapes as above", True, False),
     ("GenTagRulesReT.cfg", "TagsFilter, 6 regex templates: shapes as above", True, False),
@@ -54,6 +54,7 @@ MC_T = [
     ("MCTagRulesPre33.cfg", "design check only: complete product <= 3 x <= 3 over 6 tags, TagsFilter prefix/substring templates", False, False),
     ("MCTagRulesList33.cfg", "design check only: complete product <= 3 x <= 3 over 6 tags, TagsFilter list templates", False, False),
     ("MCTagRulesRe33.cfg", "design check only: complete product <= 3 x <= 3 over 6 tags, TagsFilter regex templates", False, False),
+    ("MCTagRulesLegacyT.cfg", "design check only: legacy filters with 3-5 templates, <=3 rules x every single tag of 49", False, False),
     ("MCTagRulesEqT.cfg", "design check only: 7 equal/true/false templates, <=3 rules x every single tag of 49", False, False),
     ("MCTagRulesPreT.cfg", "design check only: 7 prefix/substring templates, <=3 rules x every single tag of 49", False, False),
     ("MCTagRulesListT.cfg", "design check only: 6 list templates, <=3 rules x every single tag of 49", False, False),
